@@ -202,9 +202,33 @@ struct ScriptFs {
     remap: Option<(u32, u32)>, // None = fail
     log: Mutex<Vec<String>>,
     priming: std::sync::atomic::AtomicBool, // true while the harness sends the version-setting INIT
+    yield_once: bool, // every async method returns Pending once before it answers
 }
 fn new_fs(c: &Case) -> Arc<ScriptFs> {
-    Arc::new(ScriptFs { res: c.fs.clone(), remap: c.remap, log: Mutex::new(vec![]), priming: std::sync::atomic::AtomicBool::new(false) })
+    Arc::new(ScriptFs { res: c.fs.clone(), remap: c.remap, log: Mutex::new(vec![]), priming: std::sync::atomic::AtomicBool::new(false), yield_once: c.yield_once })
+}
+
+// a future that is Pending exactly once (wakes itself): real suspension at the await point of the handler
+struct YieldOnce(bool);
+impl std::future::Future for YieldOnce {
+    type Output = ();
+    fn poll(mut self: std::pin::Pin<&mut Self>, cx: &mut std::task::Context<'_>) -> std::task::Poll<()> {
+        if self.0 { std::task::Poll::Ready(()) } else { self.0 = true; cx.waker().wake_by_ref(); std::task::Poll::Pending }
+    }
+}
+
+// MetricsHook that records what the handler tells it
+struct LogHook(Mutex<Vec<String>>);
+impl fuse_backend_rs::api::server::MetricsHook for LogHook {
+    fn collect(&self, ih: &fuse_backend_rs::abi::fuse_abi::InHeader) {
+        self.0.lock().unwrap().push(format!("collect:{}:{}:{}:{}", ih.len, ih.opcode, ih.unique, ih.nodeid));
+    }
+    fn on_init_params(&self, p: &fuse_backend_rs::api::server::InitParams) {
+        self.0.lock().unwrap().push(format!("init:{}.{}:{}:{}", p.version.major, p.version.minor, p.capable.bits(), p.want.bits()));
+    }
+    fn release(&self, oh: Option<&fuse_backend_rs::abi::fuse_abi::OutHeader>) {
+        self.0.lock().unwrap().push(match oh { None => "release:none".to_string(), Some(o) => format!("release:{}:{}:{}", o.len, o.error, o.unique) });
+    }
 }
 
 impl ScriptFs {
@@ -520,20 +544,24 @@ impl FileSystem for ScriptFs {
 #[async_trait]
 impl AsyncFileSystem for ScriptFs {
     async fn async_lookup(&self, ctx: &Context, parent: u64, name: &CStr) -> io::Result<Entry> {
+        if self.yield_once { YieldOnce(false).await; }
         self.rec("lookup", Some(ctx), vec![n(parent), b(name.to_bytes())]);
         self.entry()
     }
     async fn async_getattr(&self, ctx: &Context, inode: u64, handle: Option<u64>) -> io::Result<(stat64, Duration)> {
+        if self.yield_once { YieldOnce(false).await; }
         self.rec("getattr", Some(ctx), vec![n(inode), o(handle)]);
         self.attr()
     }
     async fn async_setattr(&self, ctx: &Context, inode: u64, a: stat64, handle: Option<u64>, valid: SetattrValid) -> io::Result<(stat64, Duration)> {
+        if self.yield_once { YieldOnce(false).await; }
         self.rec("setattr", Some(ctx), vec![n(inode), n(a.st_mode), n(a.st_uid), n(a.st_gid), n(a.st_size as u64),
             n(a.st_atime as u64), n(a.st_mtime as u64), n(a.st_ctime as u64), n(a.st_atime_nsec as u64),
             n(a.st_mtime_nsec as u64), n(a.st_ctime_nsec as u64), o(handle), n(valid.bits())]);
         self.attr()
     }
     async fn async_open(&self, ctx: &Context, inode: u64, flags: u32, fuse_flags: u32) -> io::Result<(Option<u64>, OpenOptions)> {
+        if self.yield_once { YieldOnce(false).await; }
         self.rec("open", Some(ctx), vec![n(inode), n(flags), n(fuse_flags)]);
         match &self.res {
             FsRes::Open(fh, opts, _pt) => Ok((*fh, OpenOptions::from_bits_truncate(*opts))),
@@ -541,6 +569,7 @@ impl AsyncFileSystem for ScriptFs {
         }
     }
     async fn async_create(&self, ctx: &Context, parent: u64, name: &CStr, args: CreateIn) -> io::Result<(Entry, Option<u64>, OpenOptions)> {
+        if self.yield_once { YieldOnce(false).await; }
         self.rec("create", Some(ctx), vec![n(parent), b(name.to_bytes()), n(args.flags), n(args.mode), n(args.umask), n(args.fuse_flags)]);
         match &self.res {
             FsRes::Create(e, fh, opts, _pt) => Ok((mk_entry(e), *fh, OpenOptions::from_bits_truncate(*opts))),
@@ -548,6 +577,7 @@ impl AsyncFileSystem for ScriptFs {
         }
     }
     async fn async_read(&self, ctx: &Context, inode: u64, handle: u64, w: &mut (dyn AsyncZeroCopyWriter + Send), size: u32, offset: u64, lock_owner: Option<u64>, flags: u32) -> io::Result<usize> {
+        if self.yield_once { YieldOnce(false).await; }
         self.rec("read", Some(ctx), vec![n(inode), n(handle), n(size), n(offset), o(lock_owner), n(flags)]);
         match &self.res {
             FsRes::Read(d) => {
@@ -558,6 +588,7 @@ impl AsyncFileSystem for ScriptFs {
         }
     }
     async fn async_write(&self, ctx: &Context, inode: u64, handle: u64, r: &mut (dyn AsyncZeroCopyReader + Send), size: u32, offset: u64, lock_owner: Option<u64>, delayed_write: bool, flags: u32, fuse_flags: u32) -> io::Result<usize> {
+        if self.yield_once { YieldOnce(false).await; }
         let mut buf = vec![0u8; (size as usize).min(4 << 20)];
         let mut got = 0;
         while got < buf.len() {
@@ -569,14 +600,17 @@ impl AsyncFileSystem for ScriptFs {
         self.num().map(|x| x as usize)
     }
     async fn async_fsync(&self, ctx: &Context, inode: u64, datasync: bool, handle: u64) -> io::Result<()> {
+        if self.yield_once { YieldOnce(false).await; }
         self.rec("fsync", Some(ctx), vec![n(inode), t(datasync), n(handle)]);
         self.unit()
     }
     async fn async_fallocate(&self, ctx: &Context, inode: u64, handle: u64, mode: u32, offset: u64, length: u64) -> io::Result<()> {
+        if self.yield_once { YieldOnce(false).await; }
         self.rec("fallocate", Some(ctx), vec![n(inode), n(handle), n(mode), n(offset), n(length)]);
         self.unit()
     }
     async fn async_fsyncdir(&self, ctx: &Context, inode: u64, datasync: bool, handle: u64) -> io::Result<()> {
+        if self.yield_once { YieldOnce(false).await; }
         self.rec("fsyncdir", Some(ctx), vec![n(inode), t(datasync), n(handle)]);
         self.unit()
     }
@@ -662,10 +696,13 @@ struct Case {
     rsegs: Vec<usize>,
     wsegs: Vec<usize>,
     fill: u8,
+    yield_once: bool,
+    hook: bool,
+    fdfail: bool,
 }
 
 fn parse_case(line: &str) -> Case {
-    let mut c = Case { id: String::new(), transport: "fusedev".into(), cap: 0, req: vec![], fs: FsRes::Unit, remap: Some((0, 0)), prior_minor: None, vu: false, rsegs: vec![], wsegs: vec![], fill: CANARY };
+    let mut c = Case { id: String::new(), transport: "fusedev".into(), cap: 0, req: vec![], fs: FsRes::Unit, remap: Some((0, 0)), prior_minor: None, vu: false, rsegs: vec![], wsegs: vec![], fill: CANARY, yield_once: false, hook: false, fdfail: false };
     for tok in line.split_whitespace() {
         let (k, v) = tok.split_once('=').unwrap();
         match k {
@@ -680,6 +717,9 @@ fn parse_case(line: &str) -> Case {
             "rsegs" => c.rsegs = nums(v).iter().map(|x| *x as usize).collect(),
             "wsegs" => c.wsegs = nums(v).iter().map(|x| *x as usize).collect(),
             "fill" => c.fill = v.parse::<u32>().unwrap() as u8,
+            "yield" => c.yield_once = v == "1",
+            "hook" => c.hook = v == "1",
+            "fdfail" => c.fdfail = v == "1",
             _ => panic!("bad key {}", k),
         }
     }
@@ -697,6 +737,9 @@ fn run_fusedev(c: &Case, asyncmode: bool) -> String {
     let mut rbuf = c.req.clone();
     HARNESS_FD.store(a, Ordering::SeqCst);
     PWRITES.store(0, Ordering::SeqCst);
+    if c.fdfail { unsafe { libc::shutdown(a, libc::SHUT_WR); } }   // every write on the fake /dev/fuse now fails (EPIPE)
+    let lh = LogHook(Mutex::new(vec![]));
+    let hook: Option<&dyn fuse_backend_rs::api::server::MetricsHook> = if c.hook { Some(&lh) } else { None };
     let res;
     let panicked;
     {
@@ -707,9 +750,9 @@ fn run_fusedev(c: &Case, asyncmode: bool) -> String {
             let mut nc = NoCache;
             let vu: Option<&mut dyn FsCacheReqHandler> = if c.vu { Some(&mut nc) } else { None };
             if asyncmode {
-                block_on(async { unsafe { server.async_handle_message(reader, Writer::FuseDev(writer), vu, None).await } })
+                block_on(async { unsafe { server.async_handle_message(reader, Writer::FuseDev(writer), vu, hook).await } })
             } else {
-                server.handle_message(reader, Writer::FuseDev(writer), vu, None)
+                server.handle_message(reader, Writer::FuseDev(writer), vu, hook)
             }
         }));
         HARNESS_FD.store(-1, Ordering::SeqCst);
@@ -722,8 +765,9 @@ fn run_fusedev(c: &Case, asyncmode: bool) -> String {
     unsafe { libc::close(a); libc::close(bfd); }
     let canary_ok = wbuf[..pad].iter().all(|x| *x == CANARY) && wbuf[pad + c.cap..].iter().all(|x| *x == CANARY);
     let log = fs.log.lock().unwrap().join(";");
-    format!("id={} mode={} res={} panic={} canary={} pwrites={} calls={} packets={} mem=",
-        c.id, if asyncmode { "async" } else { "sync" }, res, panicked as u8, canary_ok as u8, PWRITES.load(Ordering::SeqCst), if log.is_empty() { "-".to_string() } else { log },
+    let hl = lh.0.lock().unwrap().join(";");
+    format!("id={} mode={} res={} panic={} canary={} pwrites={} hooklog={} calls={} packets={} mem=",
+        c.id, if asyncmode { "async" } else { "sync" }, res, panicked as u8, canary_ok as u8, PWRITES.load(Ordering::SeqCst), if hl.is_empty() { "-".to_string() } else { hl }, if log.is_empty() { "-".to_string() } else { log },
         if packets.is_empty() { "-".to_string() } else { packets.iter().map(|p| if p.is_empty() { "e".to_string() } else { hex(p) }).collect::<Vec<_>>().join(",") })
 }
 
@@ -778,15 +822,17 @@ fn run_virtio(c: &Case, asyncmode: bool) -> String {
     }
     let before: Vec<u8> = { let mut v = vec![0u8; memsz - 0x100000]; mem.read_slice(&mut v, GuestAddress(0x100000)).unwrap(); v };
     let chain = vq.build_desc_chain(&descs).unwrap();
+    let lh = LogHook(Mutex::new(vec![]));
+    let hook: Option<&dyn fuse_backend_rs::api::server::MetricsHook> = if c.hook { Some(&lh) } else { None };
     let r = std::panic::catch_unwind(std::panic::AssertUnwindSafe(|| {
         let reader = Reader::from_descriptor_chain(&mem, chain.clone()).unwrap();
         let writer = VirtioFsWriter::new(&mem, chain).unwrap();
         let mut nc = NoCache;
         let vu: Option<&mut dyn FsCacheReqHandler> = if c.vu { Some(&mut nc) } else { None };
         if asyncmode {
-            block_on(async { unsafe { server.async_handle_message(reader, Writer::VirtioFs(writer), vu, None).await } })
+            block_on(async { unsafe { server.async_handle_message(reader, Writer::VirtioFs(writer), vu, hook).await } })
         } else {
-            server.handle_message(reader, Writer::VirtioFs(writer), vu, None)
+            server.handle_message(reader, Writer::VirtioFs(writer), vu, hook)
         }
     }));
     let (res, panicked) = match r { Ok(v) => (res_str(&v), false), Err(_) => ("panic".to_string(), true) };
@@ -800,7 +846,9 @@ fn run_virtio(c: &Case, asyncmode: bool) -> String {
     for (a, l) in &wlocs { wm.extend_from_slice(&after[(*a as usize - 0x100000)..(*a as usize - 0x100000 + *l)]); }
     let used = match res.strip_prefix("ok:") { Some(n) => n.parse::<usize>().unwrap().min(wm.len()), None => 0 };
     let log = fs.log.lock().unwrap().join(";");
-    format!("id={} mode={} res={} panic={} canary={} pwrites=0 calls={} packets=- mem={}", c.id, if asyncmode { "async" } else { "sync" }, res, panicked as u8, canary_ok as u8,
+    let hl = lh.0.lock().unwrap().join(";");
+    format!("id={} mode={} res={} panic={} canary={} pwrites=0 hooklog={} calls={} packets=- mem={}", c.id, if asyncmode { "async" } else { "sync" }, res, panicked as u8, canary_ok as u8,
+        if hl.is_empty() { "-".to_string() } else { hl },
         if log.is_empty() { "-".to_string() } else { log }, hex(&wm[..used]))
 }
 
